@@ -14,6 +14,7 @@ from finfun import S, Unsupported
 from passeval import MMap, Panic, Sink
 
 RUN = "program_analysis/src/analysis_runner.rs"
+LAST_CACHE = [None]  # the graph cache of the kind analysed, after the last run()
 NAMES = {"template": ("A", "B"), "function": ("f", "g")}
 
 
@@ -107,6 +108,8 @@ def run(kind, lifting, referenced, relift=False):
         # another definition's pass asks for this one (AnalysisContext::template / function)
         w.call_method(runner, kind, [first])
     w.call_method(runner, "analyze_%ss" % kind, [writer, True])
+    cache = w.struct_field(runner, kind + "_cfgs") if (kind + "_cfgs") in w.structs["AnalysisRunner"] else None
+    LAST_CACHE[0] = [(k_, v_) for k_, v_ in cache.pairs] if isinstance(cache, MMap) else None
     return writes, generated, asts
 
 
@@ -126,6 +129,36 @@ def expected(kind, lifting, asts):
 
 def _key(r):
     return repr(r)
+
+
+def rule_cache(ctx, R):
+    """after the analysis whatever the graph cache holds is a successfully lifted definition's own graph under its own
+    name (a definition whose lifting failed has no entry).  True when decided."""
+    from astlib import find_fn, site
+
+    decided = True
+    for kind in ("template", "function"):
+        fn = find_fn(RUN, "analyze_" + kind)
+        st = site(RUN, fn) if fn else None
+        for lifting, relift in (("ok", False), ("fails", False), ("first-fails", False), ("ok", True)):
+            tag = "AnalysisRunner/%s/lifting-%s%s" % (kind, {"ok": "succeeds", "fails": "fails", "first-fails": "of-the-first-definition-fails"}[lifting], "/a-pass-asks-for-the-first-definition" if relift else "")
+            try:
+                _w, _g, asts = run(kind, lifting, 0, relift)
+            except Unsupported as u:
+                ctx.note("the analysis runner is outside the evaluator's subset (%s, %s): shape obligations apply" % (tag, u))
+                decided = False
+                continue
+            except Panic as p_:
+                ctx.bad(R, tag + "/no-panic", "the runner panics: %s" % p_, st)
+                continue
+            cache = LAST_CACHE[0]
+            want = sorted((n, repr(("K", "cfg", (asts[(kind, n)],)))) for n in NAMES[kind] if lifting == "ok" or (lifting == "first-fails" and n != NAMES[kind][0]))
+            got = sorted((k_, repr(v_)) for k_, v_ in cache) if cache is not None else None
+            # (a graph that is not put back is only regenerated at the next reference: harmless; a graph under another
+            # definition's name, or one for a failed lifting, is not)
+            okc = got is not None and all(x in want for x in got)
+            ctx.check(R, tag + "/graphs-in-the-cache-are-under-their-own-names", okc, "cache after the analysis: %s; the lifted definitions are %s" % ([k_ for k_, _v in got] if got is not None else "?", [k_ for k_, _v in want]) if not okc else "whatever is cached after the analysis is a lifted definition's own graph under its own name", st)
+    return decided
 
 
 def rule(ctx, R, only=None):
